@@ -1,5 +1,6 @@
 """C06 - automaton-driven enumeration returns exactly the accepted words and their images."""
 import os
+import math
 import itertools
 import collections
 import numpy as np
@@ -205,11 +206,28 @@ class HRep:
         else:
             self.dim = repcase["dim"]
             self.lib_mats = {}
-            for nm, rows in zip(names, repcase["mats"]):
+            for k_, (nm, rows) in enumerate(zip(names, repcase["mats"])):
                 M = np.array(rows, dtype=float)
+                lib = None
+                if k_ == 0 and repcase.get("variant") == "nearly-orthogonal":
+                    # orthogonal up to 3e-6 only (a rotation typed with six decimals): its
+                    # inverse is not its transpose
+                    M = np.eye(self.dim)
+                    if self.dim >= 2:
+                        M[:2, :2] = [[math.cos(0.7), -math.sin(0.7)], [math.sin(0.7), math.cos(0.7)]]
+                    M = M * 1.000003
+                elif k_ == 0 and repcase.get("variant") == "integer-typed" and self.dim >= 2:
+                    # an integer-typed generator whose inverse is not integral
+                    M = np.eye(self.dim)
+                    M[0, 0], M[0, 1] = 2.0, 1.0
+                    lib = M.astype(np.int64)
                 self.gens[nm] = M
                 self.gens[nm.upper()] = np.linalg.inv(M)
-                self.lib_mats[nm] = M.copy()
+                self.lib_mats[nm] = M.copy() if lib is None else lib
+            if repcase.get("variant") == "integer-typed" and self.dim >= 2 and len(names) >= 2:
+                # ... assigned last, so that the representation's recorded dtype is its dtype
+                first = names[0]
+                self.lib_mats[first] = self.lib_mats.pop(first)
             self.norm = {g: float(np.linalg.norm(M, 2)) for g, M in self.gens.items()}
         self._cache = {}
         self.wrap = repcase.get("wrap") if self.dim >= 2 else None
@@ -440,7 +458,9 @@ def rep_case(draw, lk, max_k=4):
             names = names[:k]
         dim = draw(st.integers(1, 3))
         r = dict(kind="float", k=k, dim=dim,
-                 mats=[draw(gen.wellcond_matrix(dim, maxfactor=2.0)) for _ in range(k)])
+                 mats=[draw(gen.wellcond_matrix(dim, maxfactor=2.0)) for _ in range(k)],
+                 variant=draw(st.sampled_from([None, None, "nearly-orthogonal",
+                                               "integer-typed"])))
     if names:
         r["names"] = names
     r["wrap"] = draw(st.sampled_from([None, None, "projective", "hyperbolic"]))
